@@ -83,7 +83,12 @@ def sites(body, prog=None, include_overflow=True):
                 # diverging call
                 lits = [_clean_lit(x) for x in _lits(ct)]
                 msg = lits[0] if lits else ""
-                out.append(PanicSite(body, i, "panic", mir.short(callee), msg, sp, exp, ct))
+                what = mir.short(callee)
+                if callee.startswith("core::panicking::"):
+                    # panic!(..) / assert!(c) / assert!(c, "msg") / assert_eq!(a, b) / unreachable!(..) lower to different entry points of
+                    # core::panicking; which one depends only on the spelling of the message
+                    what = "panicking::panic"
+                out.append(PanicSite(body, i, "panic", what, msg, sp, exp, ct))
                 continue
             last = callee.rsplit("::", 1)[-1]
             if any(callee.endswith(u) for u in UNWRAPS) and callee.startswith(UNWRAP_OWNERS):
@@ -185,7 +190,7 @@ def review(ob, prog, roots, table, fshort, stop=(), include_overflow=False, scop
         return d.replace("alpenglow::", "").split("::{closure")[0]
     ntable = {}
     for k, v in table.items():
-        kk = (nk(k[0]), k[1], k[2])
+        kk = (nk(k[0]), k[1], "panicking::panic" if (k[1] == "panic" and str(k[2]).startswith("panicking::")) else k[2])
         if kk in ntable:
             o_ = ntable[kk]
             status = "finding" if "finding" in (tuple(o_[2:3]) + tuple(v[2:3])) else None
